@@ -38,7 +38,7 @@ def judge(events, stim_of, findings, hit):
 def run(tier, seed, prop=PROP, profile="core"):
     rep = common.Report(prop, tier, seed)
     vdrive = common.build_harness()
-    n, depth = (2500, 5) if tier == "quick" else (40000, 6)
+    n, depth = (2500, 5) if tier == "quick" else (25000, 6)      # (the python side holds every event of the run: 40000 programs of depth 6 needed 17 GB)
     stimuli = []
     for k, (cnt, dep) in enumerate(((n, depth), (n // 5, depth + 1))):
         p = subprocess.run([vdrive, "c01", "gen", str(seed * 10 + k), str(cnt), str(dep), profile], capture_output=True, cwd=common.scratch(), timeout=900)
